@@ -342,6 +342,7 @@ impl Shared {
             st.blocked[tid] = false;
             while st.current != tid {
                 st = self.cvs[tid].wait(st).unwrap();
+                st.blocked[tid] = false;
             }
         }
         st.steps += 1;
@@ -389,6 +390,9 @@ impl Shared {
             self.cvs[next].notify_one();
             while st.current != tid {
                 st = self.cvs[tid].wait(st).unwrap();
+                // a thread that wakes up here is parked at a scheduling point, whatever the supervisor
+                // concluded while its wake-up was still in flight
+                st.blocked[tid] = false;
             }
         }
     }
@@ -398,6 +402,7 @@ impl Shared {
         st.ktids[tid] = unsafe { libc::syscall(libc::SYS_gettid) } as i32;
         while st.current != tid {
             st = self.cvs[tid].wait(st).unwrap();
+            st.blocked[tid] = false;
         }
     }
 
@@ -408,6 +413,7 @@ impl Shared {
             st.blocked[tid] = false;
             while st.current != tid {
                 st = self.cvs[tid].wait(st).unwrap();
+                st.blocked[tid] = false;
             }
         }
         st.alive[tid] = false;
@@ -672,9 +678,13 @@ pub fn execute(spec: &RunSpec, chooser: Chooser, pool: Arc<dyn Pool + Send + Syn
                 }
                 // look at the kernel state of the baton holder without holding the state lock (the
                 // holder may itself be queueing for that lock, which also looks like a futex wait)
-                let ktid = if cur != MAIN { st.ktids[cur] } else { 0 };
+                // The holder counts as blocked only in a state that cannot change by itself: it and every
+                // other live client thread sleep in futex waits (the others parked, the holder on
+                // something one of them holds). If any of them is runnable - e.g. the previous holder was
+                // descheduled while still holding the state lock during the hand-over - nothing is concluded.
+                let ktids: Vec<i32> = (0..st.alive.len()).filter(|t| st.alive[*t]).map(|t| st.ktids[t]).collect();
                 drop(st);
-                let asleep = cur != MAIN && thread_sleeping(ktid);
+                let asleep = cur != MAIN && !ktids.is_empty() && ktids.iter().all(|k| thread_sleeping(*k));
                 st = shared.m.lock().unwrap();
                 if st.steps != last_steps || st.current != cur {
                     last_steps = st.steps;
@@ -687,9 +697,9 @@ pub fn execute(spec: &RunSpec, chooser: Chooser, pool: Arc<dyn Pool + Send + Syn
                 } else {
                     asleep_ticks = 0;
                 }
-                if cur != MAIN && asleep_ticks >= 2 {
-                    // The baton holder sleeps in a futex wait and has passed no scheduling point for two
-                    // ticks: it waits for something a parked thread holds. Pass it over.
+                if cur != MAIN && asleep_ticks >= 3 {
+                    // Every live thread slept in a futex wait at three consecutive ticks and no scheduling
+                    // point was passed: the holder waits for something a parked thread holds. Pass it over.
                     st.blocked[cur] = true;
                     st.blocked_events += 1;
                     st.ev.u64(cur as u64);
